@@ -4,7 +4,7 @@ check("C06", "model_checking",
       "random statement trees are validated by TLC from recorded visit events (rule level: diagnostics, lints, every statement "
       "examined exactly once; strict: flags at every visit).",
       "Trusted: TLC, the rule R in spec/Placement.tla, the renderer (one token per line). Bound: quick <=6 tokens, thorough <=8 tokens, "
-      "nesting 4; modules of two (thorough three) function bodies <=7 (8) tokens, call / declaration statements <=5 (7) tokens, statements that also carry an error of a later analysis (E511, E512, E530) <=5 (6) tokens; every case also as second module and on one source line; "
+      "nesting 4; modules of two (thorough three) function bodies <=7 (8) tokens, call / declaration statements <=5 (7) tokens, statements that also carry an error of a later analysis (E511, E512, E530) <=5 (6) tokens; every case also as second module and on one source line; accepted bodies as the first / last of two modules through the real `penne emit` (L1800 count and exit status); "
       "random modules of 1-3 functions, trees <=30 statements, nesting <=8. A defective-model configuration (the pinned code before the fix) must violate Agree (vacuity guard).",
       "TLA+ spec (Placement.tla) + TLC exhaustive enumeration, replay of every case, TLC trace validation of visit/lint hook events",
       "DESIGN.md section 5 C06")
